@@ -11,7 +11,7 @@ import Proofs.Lemmas.AoefRoundtrip
 import Proofs.Lemmas.AoefC01Dir
 import SoundeventModel.Aoef.File
 import SoundeventModel.Aoef.FileSys
-import Proofs.Lemmas.History
+import Proofs.Lemmas.AoefFileSys
 namespace SE.Proofs.C01
 open SE SE.Aoef SE.Paths
 
@@ -382,35 +382,6 @@ theorem C01_fs_save_overwrites (p : String) (c : Collection) (sd : Option PPath)
     simp [exec, execW, hd, FS.read, write]
   · intro e he fs
     simp [exec, execW, he]
-
-/-- a command that does not write to `p` leaves `p` as it was -/
-theorem exec_frame (fs : FileSys) (y : Cmd) (p : String) (h : y.target ≠ some p) :
-    (exec fs y).1 p = fs p := by
-  cases y with
-  | save q c sd =>
-    have hq : p ≠ q := fun e => h (by simp [Cmd.target, e])
-    simp only [exec, execW]
-    cases save c sd <;> simp [write, hq]
-  | load q ld =>
-    simp only [exec, execW]
-    cases hr : FS.read q fs with
-    | none => rfl
-    | some x => cases x <;> rfl
-  | put q x =>
-    have hq : p ≠ q := fun e => h (by simp [Cmd.target, e])
-    simp [exec, execW, write, hq]
-  | rm q =>
-    have hq : p ≠ q := fun e => h (by simp [Cmd.target, e])
-    simp [exec, execW, remove, hq]
-
-theorem stateAfter_frame (ys : List Cmd) (fs : FileSys) (p : String) (h : ∀ y ∈ ys, y.target ≠ some p) :
-    stateAfter exec fs ys p = fs p := by
-  induction ys generalizing fs with
-  | nil => rfl
-  | cons y ys ih =>
-    simp only [stateAfter]
-    rw [ih _ (fun z hz => h z (List.mem_cons_of_mem _ hz))]
-    exact exec_frame fs y p (h y List.mem_cons_self)
 
 /-- **Every history.**  Whatever calls `xs` came first (whatever any path holds: longer or shorter
     documents, other collections, text that is no document at all, nothing), once `c` has been saved
